@@ -27,6 +27,10 @@ CHECKS = {
              note="Polygon clause partial (see text). "),
  "C13": dict(text="Theorems (Coq, closed): on every square grid (any side) with a full permutation of the sensors and every box, the box helper returns exactly the pixels with x_min<=x<=x_max, y_min<=y<=y_max (x = j mod side, y = j div side) without duplicates - the swap-and-ravel of the code is proved to be the transposition involution; the dataframe box returns exactly the positions (after dropping incomplete rows) in the half-open box; index<->coordinate conversions are mutually inverse; equation strings mark where the equation is true, files where the function is negative; load_name(id ++ '.py') = id for EVERY id (and the pre-repair str.strip behaviour is refuted by computation). Correspondence: all boxes with integer/half-integer bounds on grids up to 5x5 (7x7 thorough), random NaN dataframes, all indices, identifiers beginning/ending in p/y/_/digits written to real files and loaded, equations/functions from a small grammar evaluated by Python eval vs the Coq expression evaluator.",
              technique="Coq proof (Z/nat div-mod with lia/nia, Permutation, Qc order) + exhaustive small-scope vm_compute correspondence", ref="5/C13"),
+ "C05": dict(text="Theorems (Coq, closed, unbounded n/N/s, EVERY positive key oracle - so the guarantee does not depend on which sensors have large norms - every duplicate-free region, every feasible (N, s)): with all_sensors the complete output of the unconstrained run of the same loop, the first N sensors of the GQR loop contain at most s region sensors under max_n, exactly s under exact_n (both branches: forcing window, and deferral to max_n where the run is shown to coincide with the unconstrained run until the s best-ranked region sensors are in), and under predetermined the first N-s lie outside and the last s inside the set; N distinct sensors. Key lemmas: picks respect a static permit set over a stretch of steps; zeroing entries other than the unconstrained pick does not move numpy's first-maximum argmax. Correspondence: (a) the three Python constraint maps called directly on small inputs vs the Coq transcription, (b) real GQR runs replayed EXACTLY by the Coq loop from their own per-step residual norms (scaled integers), incl. through SSPOR(optimizer=GQR()); oracle counts region sensors.",
+             technique="Coq proof (induction over loop steps, permutation/counting invariants, argmax characterisation) + exact vm_compute replay of traced runs", ref="5/C05"),
+ "C06": dict(text="Theorems (Coq, closed, same abstract setting as C05): under max_n, exact_n and predetermined every one of the first N picks has the largest key among the not-yet-ranked sensors of its own class (inside/outside the region); when the unconstrained ranking already satisfies the constraint the first N sensors are the unconstrained ones (three options); with allowance zero the first N sensors of max_n / exact_n equal, in order and with identical first-maximum tie-breaking, those of the CCQR loop with a region cost exceeding every residual norm. Correspondence: real GQR and CCQR runs replayed exactly by the Coq loops from their own residual norms; oracle checks best-of-class per step on the run's own norms, inactive == QR()[:N], allowance 0 == CCQR(prohibitive)[:N].",
+             technique="Coq proof (coincidence-with-unconstrained lemma, argmax uniqueness) + exact vm_compute replay of traced GQR/CCQR runs", ref="5/C06"),
 }
 NOT_APPLICABLE = {}
 def main():
